@@ -64,6 +64,24 @@ pub(crate) fn generate_operation_text<'a, TCompilationProfile: CompilationProfil
     }
 }
 
+/// The query text is emitted as the body of a single-quoted JavaScript string literal. Its line
+/// breaks are already written as line continuations (a backslash followed by a line break); every
+/// other backslash and every apostrophe (e.g. in a string argument) must be escaped, so that the
+/// literal evaluates to exactly the query text.
+pub(crate) fn escape_query_text_for_single_quoted_js_string(query_text: &str) -> String {
+    let mut escaped = String::with_capacity(query_text.len());
+    let mut chars = query_text.chars().peekable();
+    while let Some(c) = chars.next() {
+        match c {
+            '\\' if chars.peek() == Some(&'\n') => escaped.push('\\'),
+            '\\' => escaped.push_str("\\\\"),
+            '\'' => escaped.push_str("\\'"),
+            c => escaped.push(c),
+        }
+    }
+    escaped
+}
+
 pub fn hash(data: &str, algorithm: PersistedDocumentsHashAlgorithm) -> String {
     match algorithm {
         PersistedDocumentsHashAlgorithm::Md5 => {
